@@ -368,6 +368,22 @@ Section S.
     - rewrite <- HL. apply Rsum_perm. apply Permutation_map. rewrite HL. exact HP.
   Qed.
 
+  (* negative weights break the min/max bound: the guard a_k >= 0 is needed *)
+  Lemma stacked_between_guard_needed :
+    exists a_k vals,
+      NoDup (map pair_of vals) /\ 0 < Rsum a_k
+      /\ (forall k, (k < length a_k)%nat -> 1 <= lookup vals k 0 <= 3)
+      /\ nth 0 (sw_ratio Nm a_k 1 vals) 0 < 1.
+  Proof.
+    exists [2; -1], [((0%nat, 0%nat), 1); ((1%nat, 0%nat), 3)].
+    assert (Hnd : NoDup (map pair_of [((0%nat, 0%nat), 1); ((1%nat, 0%nat), 3)])).
+    { cbn. repeat constructor; cbn; intuition congruence. }
+    split; [exact Hnd|]. split; [unfold Rsum; cbn; lra|]. split.
+    - intros k Hk. cbn in Hk. destruct k as [|[|k]]; [| |lia]; unfold lookup; cbn; lra.
+    - rewrite stacked_ratio_is_weighted_mean by (try exact Hnd; lia).
+      unfold lookup, Rsum. cbn. lra.
+  Qed.
+
   (* what happens without the invariant: the same pair listed twice keeps only
      its last ratio (numpy's buffered `+=`), not the sum *)
   Theorem stacked_dup_refuted :
